@@ -188,6 +188,14 @@ def gen_gate_tasks(seed: int, tier: str) -> List[Dict[str, Any]]:
             rs = core.derive(seed, PROP, "gate", ci, p, pos)
             tasks.append({"kind": "gate_class", "run_seed": rs, "cls": list(cls), "plugin": p, "position": pos,
                           "sub_seed": core.derive(rs, "sub") % 2**40, "prepopulate": core.derive(rs, "prepop") % 3})
+    # the default model path (no --model): a scratch copy of the tree's generator/ package whose
+    # lsp.json is the violating document
+    n_def = 16 if tier == "quick" else len(classes)
+    for i, ci in enumerate(r.sample(range(len(classes)), n_def)):
+        p = gw.PLUGINS[i % 4]
+        rs = core.derive(seed, PROP, "gate-default", ci, p)
+        tasks.append({"kind": "gate_class", "run_seed": rs, "cls": list(classes[ci]), "plugin": p, "position": "default",
+                      "sub_seed": core.derive(rs, "sub") % 2**40, "prepopulate": core.derive(rs, "prepop") % 3})
     # unreadable model files
     for i, (p, how) in enumerate([(p, how) for p in gw.PLUGINS for how in ("enoent", "eio", "directory")]):
         rs = core.derive(seed, PROP, "gate-unreadable", i)
@@ -233,8 +241,8 @@ MUTATION_EVENTS = {"audit_open_w", "open_w", "os.mkdir", "os.rmdir", "os.remove"
                    "shutil.rmtree", "shutil.copyfile", "shutil.move"}
 
 
-def gate_check(w: gw.World, plugin: str, files: List[str], prepopulate: int, seed: int, what: str, probes: Dict[str, int],
-               fault: Optional[Dict[str, Any]] = None) -> List[Dict[str, str]]:
+def gate_check(w: gw.World, plugin: str, files: Optional[List[str]], prepopulate: int, seed: int, what: str, probes: Dict[str, int],
+               fault: Optional[Dict[str, Any]] = None, repo: Optional[pathlib.Path] = None) -> List[Dict[str, str]]:
     """Run the CLI on model files of which at least one is not a valid metamodel; the command must
     fail before any plugin runs, with nothing written."""
     viol: List[Dict[str, str]] = []
@@ -250,7 +258,7 @@ def gate_check(w: gw.World, plugin: str, files: List[str], prepopulate: int, see
         probes["gate_prepopulated"] += 1
     before = gw.snapshot(w.base)
     env = gw.env_for(seed, "gate", random.Random(seed))
-    res = gw.run_generator(w, plugin, str(out), str(td), files, env, fault=fault, root=str(w.base))
+    res = gw.run_generator(w, plugin, str(out), str(td), files, env, fault=fault, root=str(w.base), repo=repo)
     after = gw.snapshot(w.base)
     # the simulator's own files of this invocation
     own = {f"inv{w.n_invocations}.log", f"inv{w.n_invocations}.conf.json"}
@@ -302,7 +310,14 @@ def run_gate_class(t: Dict[str, Any]) -> Dict[str, Any]:
     probes["violation_class_fired"] += 1
     w = gw.World(f"c18g-{t['run_seed']}")
     try:
-        if t["position"] in ("second", "first", "middle"):
+        tree = None
+        if t["position"] == "default":
+            tree = w.path("tree")
+            shutil.copytree(core.repo_root() / "generator", tree / "generator", ignore=shutil.ignore_patterns("__pycache__"))
+            (tree / "generator" / "lsp.json").write_bytes(models.dumps(bad))
+            files = None
+            probes["default_model_bad"] += 1
+        elif t["position"] in ("second", "first", "middle"):
             good = _sub_for_gate(core.derive(t["run_seed"], "good") % 2**40)
             good2 = _sub_for_gate(core.derive(t["run_seed"], "good2") % 2**40)
             order = {"second": [good, bad], "first": [bad, good], "middle": [good, bad, good2]}[t["position"]]
@@ -310,7 +325,7 @@ def run_gate_class(t: Dict[str, Any]) -> Dict[str, Any]:
             probes["second_file_bad" if t["position"] == "second" else "first_file_bad"] += 1
         else:
             files = w.write_models("m", [models.dumps(bad)])
-        viol = gate_check(w, t["plugin"], files, t["prepopulate"], t["run_seed"], "schema-invalid", probes)
+        viol = gate_check(w, t["plugin"], files, t["prepopulate"], t["run_seed"], "schema-invalid", probes, repo=tree)
     finally:
         w.destroy()
     for v in viol:
@@ -352,7 +367,7 @@ def _probes() -> Dict[str, int]:
     return {k: 0 for k in ["loads", "readbacks", "merges", "merge_files", "compares", "node_compares", "equal_pairs_judged", "unequal_pairs_judged",
                            "annotation_only_pair", "alias_compared", "flip_kept_valid", "fault_schema_invalid", "fault_not_json", "gate_invocations",
                            "gate_prepopulated", "second_file_bad", "violation_class_fired", "edits_applied", "edits_with_rare_kinds", "load_rejected_valid",
-                           "plugin_probe_unavailable", "reloads_same_objects", "first_file_bad", "unreadable_enoent", "unreadable_eio", "unreadable_directory", "metadata_first_file"]}
+                           "plugin_probe_unavailable", "reloads_same_objects", "first_file_bad", "default_model_bad", "unreadable_enoent", "unreadable_eio", "unreadable_directory", "metadata_first_file"]}
 
 
 def _result(t: Dict[str, Any], viol: List[Dict[str, str]], probes: Dict[str, int], skipped: Optional[str] = None, evlog: Any = None) -> Dict[str, Any]:
@@ -797,7 +812,8 @@ def main(argv: List[str]) -> int:
             probes[k] = probes.get(k, 0) + v
     judged = [r for r in ok if not r.get("skipped")]
     classes_total = len(G["classes"])
-    classes_fired = len({tuple(tasks[r["run_seed"]]["cls"]) for r in judged if r["kind"] == "gate_class" and r["probes"].get("violation_class_fired")})
+    classes_fired = len({tuple(tasks[r["run_seed"]]["cls"]) for r in judged if r["kind"] == "gate_class" and r["probes"].get("violation_class_fired")
+                         and tasks[r["run_seed"]]["position"] != "default"})
     if gate_tasks and classes_fired < classes_total and not rep.harness_errors and not first_fail:
         rep.harness_error(f"only {classes_fired} of {classes_total} violation classes were injected within the budget")
     coverage = {
@@ -811,7 +827,7 @@ def main(argv: List[str]) -> int:
         "run_kinds": kinds,
         "violation_classes_total": classes_total,
         "violation_classes_fired": classes_fired,
-        "faults_fired": {k: probes.get(k, 0) for k in ["fault_not_json", "fault_schema_invalid", "flip_kept_valid", "second_file_bad", "violation_class_fired",
+        "faults_fired": {k: probes.get(k, 0) for k in ["fault_not_json", "fault_schema_invalid", "flip_kept_valid", "second_file_bad", "first_file_bad", "default_model_bad", "violation_class_fired",
                                                         "unreadable_enoent", "unreadable_eio", "unreadable_directory", "gate_prepopulated"]},
         "probes": probes,
         "skipped": skipped,
